@@ -146,6 +146,53 @@ CHECKS.update({
              'invariants on the real outcome. Timing-dependent failures are kept only if they recur in 12 isolated re-runs.'),
 })
 
+CHECKS.update({
+    'C16': dict(
+        engine='valset',
+        technique='TLA+ spec ValSet.tla (weighted round-robin with both caches, Copy, Add/Update/Remove, State.Save/LoadState round trip) '
+                  'exhaustively model-checked with TLC; every edge of the state graphs of four small configurations and simulated behaviours of '
+                  'the larger ones replayed on the real types.ValidatorSet with state compared after each step, plus model-independent oracles '
+                  '(batched==repeated, proportional windows, rebuilt-replica determinism, copy independence, real State.Save/LoadState)',
+        level=('model_checking',
+               'TLC proves Proportional (every window of TotalVotingPower selections of a set unchanged since construction gives each validator '
+               'exactly its power), Bounded, CacheCoherent, CopyIndependent, RejectNoChange, ObserversPure and ReloadPreservesProposer for all '
+               'sets over <=4 validators, powers <=3, batched increments <=3, two aliased copies and <=2 mutations; the real ValidatorSet is '
+               'forced through every transition of the small graphs and through random behaviours, and IncrementAccum(k)=k x IncrementAccum(1), '
+               'replica agreement on validators/hash/proposer and the real persistence round trip are checked at every step.', 'DESIGN.md §4 C16'),
+        note='Trusted: TLC, the projection in harness/cmd/valset (hook verif_export_valset.go), ed25519/go-wire. Accums far from int64 overflow; '
+             'empty sets excluded; exact proportionality only for sets unchanged since NewValidatorSet (the first windows after '
+             'Add/Update/Remove are skewed by carried-over accums - TLC counterexample recorded in evidence assumptions).'),
+    'C17': dict(
+        engine='partset',
+        technique='TLA+ specs MerkleOps/SimpleMerkle.tla (symbolic injective hash, the code\'s recursion) and PartSet.tla (AddPart over claimed '
+                  'index x source part x mutation) exhaustively model-checked; every edge of the PartSet graphs replayed on the real '
+                  'types.PartSet in all byte-level variants, the real tree required to equal the model\'s tree, and SimpleProof.Verify / '
+                  'NewPartSetFromData / reassembly brute-forced on the real code',
+        level=('model_checking',
+               'TLC proves ProofComplete and ProofSound (no leaf, index in [-n-1,n+1] or single-field proof mutation other than the genuine one '
+               'verifies under the genuine total) for trees of 1-10 leaves, and OnlyGenuineAccepted, RejectLeavesSetUnchanged, StoredGenuine, '
+               'ReassemblyExact for part sets of 1-7 parts over every claimed index in [-8,8] x source part x mutation class; the real PartSet '
+               'follows every transition with result, held parts, count and reassembled bytes compared, and the real Verify agrees with the '
+               'model\'s verdict on every (proof, leaf, index, total) tuple, including the predicted total confusions.', 'DESIGN.md §4 C17'),
+        note='Trusted: TLC, symbolic-hash assumption (collision free, leaf/inner separated), harness/cmd/partset. Known finding ProofBindsTotal: '
+             'the scheme does not bind the number of leaves (a proof verifies under other (index,total) with the same path shape, never for '
+             'another leaf); callers take total and root from one signed header. Part size >=1.'),
+    'C03': dict(
+        engine='privval',
+        technique='TLA+ spec PrivVal.tla (signBytesHRS checks, save, the three WriteFileAtomic sub-steps each ok/fail/crash, crash before return '
+                  'and between calls, LoadPrivValidator) exhaustively model-checked; every edge of the small state graph, crash/fail/reload edges '
+                  'of the larger one, simulated behaviours and seeded fault schedules replayed on a real PrivValidator with real key and files '
+                  'through the verifhook failpoints, state compared at every failpoint, every released signature checked against the property',
+        level=('model_checking',
+               'TLC proves NoConflictingRelease, Monotone, DurableBeforeRelease, DiskMonotone, MemIsDisk for all request sequences over heights '
+               '<=2, rounds <=2, 3 steps, 2 contents with <=2 crashes and <=2 failing writes at every sub-step; the real signer is driven through '
+               'every transition of the small graph (crash = abandon the object at the failpoint + LoadPrivValidator) and for each released '
+               'signature the file read back at that instant holds exactly its record, no earlier release conflicts, and none regresses.',
+               'DESIGN.md §4 C03'),
+        note='Trusted: TLC, harness/cmd/privval, verifhook failpoints (fail/crash immediately before each write), ed25519. Process-crash model '
+             'only - WriteFileAtomic does not fsync, power-loss durability not claimed; a failing write leaves its target untouched.'),
+})
+
 NOT_YET = 'not yet built: the specification for this property is planned in DESIGN.md §4 but no check is registered yet'
 NOT_APPLICABLE = {
     'C18': 'codec round-trip/robustness/injectivity are statements about pure functions over byte strings; there is no '
